@@ -314,7 +314,7 @@ Definition parse_field_param (arg : string) (includes_colnum includes_agg : bool
                       end
           | _ => None
           end
-        else Some (hd EmptyString (split "=" prefix), None) in
+        else Some (prefix, None) in
       match nc with
       | None => FPBad
       | Some (n, k) =>
